@@ -103,11 +103,45 @@ def w_sequence(ctx, rng, idx):
                     # (a real core cannot hold the complex result in place: left as it is)
 
 
+def w_large(ctx, rng, idx):
+    """registers far beyond a dense state vector (up to 72 qubits, often more than 53 measured sites - the mantissa of a double):
+    product states, GHZ-type states and random right-orthonormal states of rank 2; decided by the transfer-matrix oracle"""
+    n = int(rng.integers(20, 73))
+    kind = idx % 3
+    with probe.oracle():
+        if kind == 0:
+            cores = []
+            for _ in range(n):
+                v = rng.standard_normal(2) + 1j * rng.standard_normal(2)
+                if rng.random() < 0.3:
+                    v[int(rng.integers(0, 2))] = 0.0
+                cores.append((v / np.linalg.norm(v)).reshape(1, 2, 1, 1))
+            psi = tt.TT(cores)
+        elif kind == 1:
+            cores = []
+            for i in range(n):
+                r1, r2 = (1 if i == 0 else 2), (1 if i == n - 1 else 2)
+                cr = np.zeros((r1, 2, 1, r2), dtype=complex)
+                cr[0, 0, 0, 0] = 1.0
+                cr[r1 - 1, 1, 0, r2 - 1] = 1.0
+                cores.append(cr)
+            cores[0] = cores[0] * np.array([np.cos(0.7), np.exp(1j * rng.uniform(0, 6.28)) * np.sin(0.7)]).reshape(1, 2, 1, 1) if False else cores[0] / np.sqrt(2)
+            psi = tt.TT(cores)
+        else:
+            psi = tt.TT(gen.right_orthonormal_cores(gen.rand_cores(rng, [2] * n, [1] * n, [1] + [2] * (n - 1) + [1], True)))
+    k = n if rng.random() < 0.5 else int(rng.integers(max(1, n - 10), n + 1))
+    sub = sorted(int(i) for i in rng.choice(n, size=k, replace=False))
+    N = [1, 20, 200][int(rng.integers(0, 3))]
+    ctx.describe({'op': 'sampling large register', 'qubits': n, 'measured': k, 'kind': ['product', 'ghz', 'random_rank2'][kind], 'samples': N})
+    call('quantum_computation.sampling', qc.sampling, psi, sub, N, prop=P, tags=['large_register'])
+
+
 WORKLOADS = [
     Workload('subsets', w_subsets, None, None, enum=enum_subsets),
     Workload('random', w_random, 160, 3000),
     Workload('special', w_special, 60, 1200),
     Workload('sequence', w_sequence, 80, 1500),
+    Workload('large', w_large, 20, 300),
 ]
 REQUIRED = ['C20|quantum_computation.sampling:equals_inverse_cdf_sampling_of_born_marginal', 'C20|quantum_computation.sampling:frequencies_sum_to_one',
             'C20|quantum_computation.sampling:bit_strings_distinct', 'C20|quantum_computation.sampling:frequencies_converge_to_born_marginal',
